@@ -1,6 +1,7 @@
 import Percival.Model.Sha256
 import Percival.Spec.Sha256
 import Percival.Proofs.Schedule
+import Percival.Proofs.Words
 /-! `Model.Sha256.transform` (the C's macro-structured `SHA256_Transform`) is the FIPS 180-4
 compression function `Spec.Sha256.compress` (helper lemmas for C01 / P2). -/
 namespace Percival.Proofs.Sha256T
@@ -218,16 +219,7 @@ theorem fold_MSCH' (m s : Nat) (W : Vector UInt32 64) (hs : 16 ≤ s) (hm : s + 
 
 /-! ### glue -/
 
-theorem wordsBE_length (b : Bytes) : (wordsBE b).length = b.length / 4 := by
-  fun_induction wordsBE b with
-  | case1 a b c d rest ih => simp [ih]; omega
-  | case2 b h =>
-    match b, h with
-    | [], _ => rfl
-    | [_], _ => simp
-    | [_, _], _ => simp
-    | [_, _, _], _ => simp
-    | a :: b :: c :: d :: rest, h => exact absurd rfl (h a b c d rest)
+theorem wordsBE_length (b : Bytes) : (wordsBE b).length = b.length / 4 := Words.wordsBE_length b
 
 theorem wf_decodeBlock (block : Bytes) (hb : block.length = 64) (t : Nat) (ht : t < 16) :
     wf (decodeBlock block) t = (wordsBE block).getD t 0 := by
